@@ -33,7 +33,23 @@ def gen_history(rng, strings, idx):
         if runtime_path:
             body.append("p%d := %s" % (k, P))
             P = "p%d" % k
-        op = rng.choice(["write", "write", "append", "read", "exists", "exists-special"])
+        op = rng.choice(["write", "write", "append", "read", "exists", "exists-special", "exists-pair"])
+        if op == "exists-pair":
+            # two (or three) queries inside one expression: every one answers for its own path
+            qs = [rng.choice(paths) for _ in range(rng.choice([2, 2, 3]))]
+            exprs = ["exists(%s)" % gen_strings.go_quote(sp_) for sp_, _ in qs]
+            vals = [1 if cn_ in store else 0 for _, cn_ in qs]
+            form = rng.random()
+            if form < 0.5:
+                body.append('print("p", %s)' % ", ".join(exprs))
+                out.append("p " + " ".join(str(v) for v in vals))
+            elif form < 0.8:
+                body.append('print("p", %s)' % " && !".join(exprs[:2]))
+                out.append("p %d" % (1 if (vals[0] and not vals[1]) else 0))
+            else:
+                body.append('print("p", %s)' % " == ".join(exprs[:2]))
+                out.append("p %d" % (1 if vals[0] == vals[1] else 0))
+            continue
         if op == "exists-special":
             # paths that exist without being regular files: a device, a directory, the working directory
             sp, ex = rng.choice([("/dev/null", 1), (".", 1), ("/", 1), ("/dev", 1), ("/dev/nonexistent-node", 0), ("", 0)])
